@@ -143,6 +143,31 @@ FloatLaws ==
      /\ FToU32(F, FFromU(F, <<A[1], 0>>)) = <<A[1], 0>>                    \* 16-bit integers survive the round trip
      /\ FToI32(F, FFromS(F, SExt(<<A[1]>>, 2))) = SExt(<<A[1]>>, 2)
      /\ (nn => FTruncF(F, FTruncF(F, A).w) = FTruncF(F, A))
+\* output modifiers and packed binary32
+PkRec(opsel, opselhi, neg, neghi, s1) ==
+  [VRec("cdna3", "VOP3a", 945, a, b, <<65535, 65535, 65535, 65535>>, Z64) EXCEPT
+     !.s0 = [c |-> 258, n |-> 2, r |-> [k \in Lanes |-> A \o BW]], !.s1 = s1,
+     !.abs = neghi, !.neg = neg] @@ [opsel |-> opsel, opselhi |-> opselhi]
+ModifierLaws ==
+  LET F  == Fmt32
+      nn == ~F32IsNaN(A) /\ ~F32IsNaN(BW)
+      v1 == [c |-> 260, n |-> 2, r |-> [k \in Lanes |-> BW \o A]]
+      one == [c |-> 242, n |-> 2]
+      pk(r) == VPkSem("v_pk_mul_f32", r, 3).pk
+      m(x, y) == FR32(FMul(F, x, y), {x, y})
+  IN /\ (~F32IsNaN(A) => /\ Clamp32(Clamp32(A)) = Clamp32(A)
+                          /\ F32Sign(Clamp32(A)) = 0 /\ F32Mag(Clamp32(A)) <= F32Mag(F32One)
+                          /\ (F32Sign(A) = 0 /\ F32Mag(A) <= F32Mag(F32One) => Clamp32(A) = A))
+     \* the usual form: low halves give the low result, high halves the high result
+     /\ pk(PkRec(0, 3, 0, 0, v1)) = <<m(A, BW), m(BW, A)>>
+     \* OP_SEL and OP_SEL_HI exchanged: the halves of the result are exchanged
+     /\ pk(PkRec(3, 0, 0, 0, v1)) = <<m(BW, A), m(A, BW)>>
+     \* NEG acts on the low result only, NEG_HI on the high result only
+     /\ pk(PkRec(0, 3, 1, 0, v1)) = <<m(F32Neg(A), BW), m(BW, A)>>
+     /\ pk(PkRec(0, 3, 0, 2, v1)) = <<m(A, BW), m(BW, F32Neg(A))>>
+     \* an inline 1.0 is 1.0 in the low dword and 0 in the high dword
+     /\ pk(PkRec(0, 1, 0, 0, one)) = <<m(A, F32One), m(BW, F32One)>>
+     /\ pk(PkRec(2, 3, 0, 0, one)) = <<m(A, Z32), m(BW, Z32)>>
 \* every table entry with a reference evaluates (no CASE falls through) to well-formed words
 WellFormed ==
   /\ \A arch \in {"gcn3", "cdna3"} :
